@@ -40,25 +40,27 @@ def main():
         shutil.copy(os.path.join(dst, "demo_test.go"), os.path.join(wt, "zz_demo_test.go"))
         r1 = sh("go test -vet=off -count=1 . 2>&1 | grep -E '^(--- FAIL|ok|FAIL)' | head -20", cwd=wt)
         res["demo_with_patch"] = r1.stdout.strip()
-    finally:
+    except Exception:
         sh(f"git -C /repo worktree remove --force {wt}")
+        raise
     suite_fails = [l for l in res["suite_with_patch"].split("\n") if l.startswith("--- FAIL")]
     demo_fails_with = [l for l in res["demo_with_patch"].split("\n") if l.startswith("--- FAIL") and "TestProvideLocation" not in l]
     demo_fails_without = [l for l in res["demo_without_patch"].split("\n") if l.startswith("--- FAIL") and "TestProvideLocation" not in l]
     res["confirmed"] = (res["apply"] == 0 and all("TestProvideLocation" in l for l in suite_fails)
                         and bool(demo_fails_with) and not demo_fails_without)
-    # run the checks against the change
+    # run the checks against the change: the scratch worktree (patch applied, demo removed) is the
+    # tree under test (VERIF_REPO); /repo itself is never modified
     checks = {}
-    if res["confirmed"]:
-        assert sh("git -C /repo status --porcelain").stdout.strip() == "", "/repo is dirty"
-        a = sh(f"git -C /repo apply {dst}/patch.diff")
-        try:
+    try:
+        if res["confirmed"]:
+            os.remove(os.path.join(wt, "zz_demo_test.go"))
+            env = dict(ENV, VERIF_REPO=wt)
             before = set()
             for root, _, fs in os.walk("/verif/replays"):
                 before |= {os.path.join(root, f) for f in fs}
             procs = {}
             for p in props:
-                procs[p] = subprocess.Popen(f"bin/check {p} quick", shell=True, cwd="/verif", env=ENV, stdout=subprocess.PIPE, stderr=subprocess.DEVNULL, text=True)
+                procs[p] = subprocess.Popen(f"bin/check {p} quick", shell=True, cwd="/verif", env=env, stdout=subprocess.PIPE, stderr=subprocess.DEVNULL, text=True)
             for p, pr in procs.items():
                 out, _ = pr.communicate(timeout=3000)
                 checks[p] = dict(exit=pr.returncode, lines=[l for l in out.split("\n") if l.startswith(("VIOLATION", "KNOWN-FINDING"))][:6])
@@ -68,15 +70,15 @@ def main():
                     pth = os.path.join(root, f)
                     if pth not in before:
                         shutil.move(pth, os.path.join(dst, "replays", os.path.basename(root) + "-" + f))
-        finally:
-            sh("git -C /repo checkout -- .")
-            sh("git -C /verif checkout -- evidence")
+    finally:
+        sh(f"git -C /repo worktree remove --force {wt}")
+        sh("git -C /verif checkout -- evidence coq/theories/ErrTable.v")
     res["checks"] = checks
     target = meta.get("property")
     res["detected_by"] = sorted(p for p, c in checks.items() if c["exit"] != 0)
     res["target_detected"] = target in res["detected_by"]
     meta["verification"] = res
-    meta["what_was_run"] = "tools/seedrun.py: demo with/without the patch in a scratch worktree, library suite with the patch, then bin/check <id> quick for " + ",".join(props) + " with the patch applied to /repo (restored afterwards)"
+    meta["what_was_run"] = "tools/seedrun.py: demo with/without the patch in a scratch worktree, library suite with the patch, then bin/check <id> quick for " + ",".join(props) + " against a scratch worktree of /repo with the patch applied (VERIF_REPO; /repo itself untouched)"
     json.dump(meta, open(os.path.join(dst, "meta.json"), "w"), indent=1)
     print(name, "confirmed" if res["confirmed"] else "NOT CONFIRMED", "target", target, "detected_by", res["detected_by"])
     if not res["confirmed"]:
